@@ -27,7 +27,7 @@ CALLS = {"p=0": ["", "3", "p=2"], "p, q=2, *ar, k=1, **kw": ["1", "1, 5, 6, 7, k
          "p=1, *ar": ["", "5, 6, 7"], "p=2, **kw": ["", "3, u=1, v=2"]}
 
 
-def gen_func(rng, idx):
+def gen_func(rng, idx, future=False):
     g = gen_prog.Gen(random.Random(rng.random()), rng.choice(["core", "core", "wide"]), max_depth=3)
     g.in_func = 1
     params = rng.choice(PARAMS)
@@ -45,11 +45,32 @@ def gen_func(rng, idx):
         body += ["for gi in range(2):", "    yield x + gi"]
     else:
         body += ["return %s" % g.expr()]
+    at = 1 + [i for i, l in enumerate(body) if l.startswith("y = ")][0]
+    if rng.random() < 0.3:
+        # a multi-line literal with lines inside and left of the function's margin: its value depends on the text not being re-indented
+        body.insert(at, 'y = len("""ab\n      cd\n  ef\ngh""") + y')
+    if future:
+        # under the module's `from __future__ import annotations` the annotation stays a string (of 10 characters, not a pair); its evaluation
+        # delivers none of the events of EVENT_SETS, so the reference (which runs the text without the future import) has the same events
+        # (recorded as a side effect, not fed into the control flow: the reference must take the same path)
+        body[at:at] = ["def annotated(u: (1.5, 2.5) = 1):", "    return u", "_rec.append(annotated() + len(annotated.__annotations__[\"u\"]))"]
     name = "f%d" % idx
     head = "def %s(%s):" % ("SELF", params)
     text = "\n".join([head] + ["    " + l for l in body]) + "\n"
     decos = {"below": ["@DECO", "@OTHER"], "above": ["@OTHER", "@DECO"]}.get(kind, ["@DECO"])
     src = text.replace("SELF", name + "__plain") + "\n".join(decos) + "\n" + text.replace("SELF", name)
+    if rng.random() < 0.3:
+        # still a module-level function, but indented in its file (string literals keep their own margin)
+        lines, out, in_str = src.split("\n"), [], False
+        for l in lines:
+            out.append(l if in_str or not l else "    " + l)
+            if l.count('"""') % 2 == 1:
+                in_str = not in_str
+        src = "if bx.v == 5:\n" + "\n".join(out) + "\n"
+    try:
+        compile(text, "<generated>", "exec")     # the generator's nested `global` declarations can follow a use of the name: not Python
+    except SyntaxError:
+        return gen_func(rng, idx, future)
     return {"name": name, "kind": kind, "src": src, "calls": list(CALLS[params])}
 
 
@@ -59,11 +80,13 @@ EVENT_SETS = [["load_name", "after_stmt"], ["before_stmt", "after_assign_rhs", "
 
 def gen_case(rng):
     nf = rng.choice([1, 2, 2, 3])
-    funcs = [gen_func(rng, i + 1) for i in range(nf)]
+    future = rng.random() < 0.25
+    funcs = [gen_func(rng, i + 1, future) for i in range(nf)]
     style = rng.choice(["pyc", "pyc", "method"])
     ntr = 1 if style == "method" else rng.choice([1, 2])
-    tracers = [{"events": rng.choice(EVENT_SETS), "guards": rng.random() < 0.6} for _ in range(ntr)]
-    src = gen_prog.PRELUDE + "from c19_support import DECO, OTHER\na = 1\nb = 2\nc = 3\nd = 4\nbx = Box(5)\n" + "\n".join(f["src"] for f in funcs)
+    # sys: the tracer also has a (silent) handler for a sys.settrace event
+    tracers = [{"events": rng.choice(EVENT_SETS), "guards": rng.random() < 0.6, "sys": rng.choice([None, None, None, "call", "return"])} for _ in range(ntr)]
+    src = ("from __future__ import annotations\n" if future else "") + "# a comment line, so that no function starts near line 1\n" * rng.choice([0, 3]) + gen_prog.PRELUDE + "from c19_support import DECO, OTHER\na = 1\nb = 2\nc = 3\nd = 4\nbx = Box(5)\n" + "\n".join(f["src"] for f in funcs)
     return {"module_src": src, "funcs": [{"name": f["name"], "calls": f["calls"], "kind": f["kind"]} for f in funcs], "tracers": tracers, "style": style,
             "interleave": rng.random() < 0.5}
 
@@ -111,6 +134,9 @@ def oracle_case(c, im):
                 earlier = any(n2 != name for n2 in list(im["funcs"])[list(im["funcs"]).index(name) + 1:]) or len(c["funcs"]) > 1
                 return {"what": "%s(%s): %d of %d events arrive without a valid node" % (name, call["args"], call["invalid_nodes"], len(ev)),
                         "kind": "evicted" if call["invalid_nodes"] and earlier else "nodes", "func": name}
+            if call.get("misplaced_nodes"):
+                return {"what": "%s(%s): %d of %d events arrive with a node whose position is not its place in the file" % (name, call["args"], call["misplaced_nodes"], len(ev)),
+                        "kind": "positions", "func": name}
     if im["outside_events"]:
         return {"what": "%d events were delivered outside any call of a decorated function" % im["outside_events"], "kind": "outside"}
     return None
